@@ -19,7 +19,7 @@ func init() {
 	runner.Register(&runner.Check{
 		ID:    "C19",
 		Level: "model_checking",
-		Rule: "TABLE PART (default build): case = audit engine {On, Off, RelevantOnly} reached by SecAuditEngine, or by ctl:auditEngine in phase 1 or phase 5 from another configured mode (quick: one other mode, 9 settings; thorough: both, 15 settings) x SecAuditLogRelevantStatus {unset, ^403$, ^(?:4|5)} x 0-2 rules of phase 2 that fire, each with flags from {log, nolog, auditlog, noauditlog, `nolog,auditlog`, `log,noauditlog`} (quick: second rule from {nolog, `nolog,auditlog`, `log,noauditlog`}) and msg/logdata expanded from the request, x {no interruption, deny 403 on rule 1 or 2 with SecRuleEngine On, the same with DetectionOnly} (73 rule programs quick, 199 thorough) x parts {ABCFHZ, ABIJKZ, ABCFHZ+ctl:auditLogParts=+E, ABCFHZ+ctl:auditLogParts=-B, ABCFHKZ, directive absent} x SecAuditLogFormat {Native, JSON} x response {none, 200, 404} x payload bytes placed in a request header, the request body, a response header, the response body and (by macro) the rule message and logdata: {plain, double quote, backslash, newline, CRLF, \\xff, a line that looks like a native boundary} (thorough: full product, 21 requests per configuration; quick: plain payload with every status, the other payloads with status 200, 9 requests). " +
+		Rule: "TABLE PART (default build): case = audit engine {On, Off, RelevantOnly} reached by SecAuditEngine, or by ctl:auditEngine in phase 1 or phase 5 from another configured mode (quick: one other mode, 9 settings; thorough: both, 15 settings) x SecAuditLogRelevantStatus {unset, ^403$, ^(?:4|5)} x 0-2 rules of phase 2 that fire, each with flags from {log, nolog, auditlog, noauditlog, `nolog,auditlog`, `log,noauditlog`} (quick: second rule from {nolog, `nolog,auditlog`, `log,noauditlog`}) and msg/logdata expanded from the request, x {no interruption, deny 403 on rule 1 or 2 with SecRuleEngine On, the same with DetectionOnly} (91 rule programs quick, 199 thorough; in DetectionOnly the would-be deny sits on the first or the second of two rules) x parts {ABCFHZ, ABIJKZ, ABCFHZ+ctl:auditLogParts=+E, ABCFHZ+ctl:auditLogParts=-B, ABCFHKZ, directive absent} x SecAuditLogFormat {Native, JSON} x response {none, 200, 404} x payload bytes placed in a request header, the request body, a response header, the response body and (by macro) the rule message and logdata: {plain, double quote, backslash, newline, CRLF, \\xff, a line that looks like a native boundary} (thorough: full product, 21 requests per configuration; quick: plain payload with every status, the other payloads with status 200, 9 requests). " +
 			"Records are captured by an audit-log writer registered through the plugin API that formats with the configured formatter; error-callback invocations through WithErrorCallback. " +
 			"Oracle: reference decision function (one record iff On, or RelevantOnly and the real or would-be status matches the pattern; RelevantOnly without a pattern is not asserted), transaction id carried, listed rules = fired audit-enabled rules (part H / K), error callback once per fired rule with log and with the transaction's id, JSON = one line that encoding/json parses and whose fields give back the bytes (modulo U+FFFD for bytes JSON cannot carry), Native = sections delimited by the record's own boundary are exactly the configured parts from A to Z, boundary nowhere else, header / body / message bytes present unaltered. " +
 			"distinct_nontrivial = distinct cases in which at least one rule fired and a record was expected; in this part states = configurations (WAFs built), transitions = traces = transactions executed. " +
